@@ -100,7 +100,8 @@ Apply(w, op) ==
             \* behaves afterwards like a newly constructed object on the data get_original() returns
             New(w.ox, w.oy)
       [] op.k = "recreate" ->
-            IF op.strategy = "CubicSpline" \/ w.yopaque
+            \* (the cubic spline and user-supplied sampling functions: values are an environment step, the grid is not)
+            IF op.strategy \notin {"PiecewiseConstant", "LinearFixed", "ExpFixed", "LinearAdaptive", "ExpAdaptive"} \/ w.yopaque
             THEN [w EXCEPT !.x = OversampleLinspace(w.x, op.n), !.y = OversamplePiecewise(w.y, op.n), !.yopaque = TRUE, !.reshaped = TRUE]
             ELSE LET o == RecreateOut(w.x, w.y, op) IN [w EXCEPT !.x = o[1], !.y = o[2], !.reshaped = TRUE]
       [] op.k = "integral_match" ->
